@@ -19,20 +19,23 @@ PROP = {
                   "(reload, save, reload) equals the first. Data validations and conditional formatting (second session): element-tree models of both codecs "
                   "(Umya/Model/AnnotDv.lean, AnnotCf.lean) with full round-trip theorems for all well-formed values (C06_data_validation_codec, C06_data_validations_roundtrip, "
                   "C06_cf_rule_codec, C06_conditional_formatting_roundtrip incl. dxfId resolution through a find-or-append table from any initial table), enum tables proved for every "
-                  "constructor and regenerated from the source on every run (C06_enum_tables, C06_enum_tables_match_source), four repaired defects each refuted for the unfixed model "
-                  "(*_unfixed_fails) and three residual edge losses refuted and listed (C06_cf_blank_color_fails, C06_cf_empty_sqref_fails, C06_cf_no_rules_fails). Tie on every run: "
+                  "constructor and regenerated from the source on every run (C06_enum_tables, C06_enum_tables_match_source), seven repaired defects each refuted for the unfixed model "
+                  "(*_unfixed_fails; the last three — a colour without attributes in a scale, a block without ranges, a block without rules — were known findings until fixes 8f9bb71 / 1306250 / bc04409: the "
+                  "round trip now covers blocks without ranges and colours without attributes and is stated up to writtenBlocks, the blocks that have a rule, C06_cf_written_blocks). Tie on every run: "
                   "the real <dataValidations>, <conditionalFormatting> and <dxfs> elements, parsed by the independent XML reader in the driver, are tree-equal to `write` of the value the "
                   "harness set through the public API, the model reader on the real elements equals the reloaded getters, and a second generation ties the writer from a non-empty dxf table. "
                   "Comments (third session, Umya/Model/AnnotComment.lean, Thm/C06Comment.lean): element-tree models of both comment parts - `<comments>` (authors, commentList, `<text>` as runs with opaque run "
                   "properties, xml:space) and the VML part (frame, one v:shape per comment with style, x:MoveWithCells / x:SizeWithCells / x:Anchor / x:Row / x:Column / x:Visible) -, of both readers and of the "
-                  "comment_index loop. Proved for all inputs: the text codec (C06_comment_text_codec, over the character channel C06_comment_text_channel), both writers emit in list order (C06_comment_vml_order), "
-                  "save + reload returns the same comments in the same order with cell, author, text, style, anchor, flags and visibility for any number of well-formed comments on any cells in any insertion order "
-                  "(C06_comment_roundtrip up to C06_comment_norm; C06_comment_no_swap: same count, same cells, the comment found on cell k is the one that was there), the reader's loop is a zip of the comments with the "
-                  "shapes that have an x:Column for ANY two parts (C06_comment_join_is_zip) and is right when those shapes name the cells of commentList in order (C06_comment_join_valid); refuted and listed: a comment "
-                  "whose shape has no x:Column takes its successor's shape (C06_comment_no_column_target_fails). Tie on every run (`c06 cmt`): the real comments{n}.xml and vmlDrawing{n}.vml of 150 generated "
-                  "workbooks, lexed by the independent XML reader, are tree-equal to writeComments / writeVml of the values set through the public API and joinByPosition (readComments ..) (readVml ..) on the "
+                  "loop that joins the shapes to the comments by the cell x:Row / x:Column name (fix b524a98a; the writer names the comment's cell in every shape, fix 26940198). Proved for all inputs: the text codec (C06_comment_text_codec, over the character channel C06_comment_text_channel), both writers emit in list order (C06_comment_vml_order), "
+                  "save + reload returns the same comments in the same order with cell, author, text, style, anchor, flags and visibility for any number of well-formed comments on any cells in any insertion order, shapes with or without x:Row / x:Column "
+                  "(C06_comment_roundtrip up to C06_comment_norm; C06_comment_no_swap: same count, same cells, the comment found on cell k is the one that was there), for comments on distinct cells and note shapes that name exactly those cells IN ANY ORDER (a permutation; other shapes anywhere between them) the reader's loop is the join by cell and every comment gets "
+                  "the note shape that names its cell (C06_comment_join_by_cell); the loop never loses, duplicates or re-orders a comment and is the zip of the comments with the shapes that have an x:Column when no shape "
+                  "names a comment's cell (C06_comment_join_is_zip, the fallback) and when the note shapes name the cells of commentList in order, distinct or not (C06_comment_join_valid); a comment built without "
+                  "new_comment and a comment moved after new_comment come back with their own shapes (C06_comment_no_column_target; the refutation C06_comment_no_column_target_fails is retired). Tie on every run (`c06 cmt`): the real comments{n}.xml and vmlDrawing{n}.vml of 150 generated "
+                  "workbooks, lexed by the independent XML reader, are tree-equal to writeComments / writeVml of the values set through the public API and joinShapes (readComments ..) (readVml ..) on the "
                   "real trees equals the reloaded getters; `c06 cmtr`: the same reader-side comparison on every corpus file that has comments, where the harness also checks that each joined shape names its "
-                  "comment's cell (fails on three Excel-written files: known finding, reader defect). The <autoFilter> element (the struct holds the range only) has its codec theorem C06_auto_filter_codec.",
+                  "comment's cell (three Excel-written files list the shapes in another order: mis-paired before fix b524a98a, counter cmtf.mispaired now 0), and on 60 generated workbooks whose saved VML parts had their "
+                  "v:shape elements reversed / rotated / shuffled (`c06 reset cmtp`). The <autoFilter> element (the struct holds the range only) has its codec theorem C06_auto_filter_codec.",
     "level_note": "Trusted: Lean kernel + 3 standard axioms; the hand model's faithfulness as exercised by the correspondence stream; quick-xml 0.37.5 escape / unescape / "
                   "trim_text / event splitting (modelled); fancy_regex on the is_address regex (hand matcher, tied behaviourally through the dnr lines); the harness dump "
                   "functions (annot_entries) and the zip crate. The *_unfixed_*_fails refutations concern a model of the code BEFORE the fixes, which no longer runs; it was "
@@ -49,10 +52,10 @@ PROP = {
                         "C06_codec_channel", "C06_dvcf_enum_tables", "C06_enum_tables_match_source", "C06_data_validation_codec", "C06_data_validations_roundtrip",
                         "C06_data_validations_positions", "C06_cf_dxf_table", "C06_cf_rule_codec", "C06_conditional_formatting_roundtrip", "C06_cf_formula_text",
                         "C06_dv_type_unfixed_fails", "C06_dv_formula_unfixed_fails", "C06_cf_dxf_hash_unfixed_fails", "C06_cf_iconset_unfixed_fails",
-                        "C06_cf_blank_color_fails", "C06_cf_empty_sqref_fails", "C06_cf_no_rules_fails",
-                        # comments: text, VML shapes, positional join; auto-filter element (Umya/Thm/C06Comment.lean)
+                        "C06_cf_blank_color_unfixed_fails", "C06_cf_empty_sqref_unfixed_fails", "C06_cf_no_rules_unfixed_fails", "C06_cf_written_blocks",
+                        # comments: text, VML shapes, join by the cell a note shape names; auto-filter element (Umya/Thm/C06Comment.lean)
                         "C06_comment_text_channel", "C06_comment_text_codec", "C06_comment_vml_order", "C06_comment_roundtrip", "C06_comment_norm",
-                        "C06_comment_no_swap", "C06_comment_no_column_target_fails", "C06_comment_join_is_zip", "C06_comment_join_valid",
+                        "C06_comment_no_swap", "C06_comment_no_column_target", "C06_comment_join_by_cell", "C06_comment_join_is_zip", "C06_comment_join_valid",
                         "C06_auto_filter_codec"],
     "rule": "case = one workbook: 8 fixed witnesses (the repaired defects + the residual ones), N workbooks generated from a per-case seed by wb::gen_book with rich "
             "annotations (1-6 sheets, 0..40 hyperlinks with tooltips / location links to quoted sheets, 0..30 comments over a pool of authors incl. the empty one, 0..36 merges, "
@@ -60,16 +63,17 @@ PROP = {
             "header / footer with & codes, sheet and workbook protection flags and hashes, 0..12 defined names per sheet incl. multi-area, quoted, whole-row/column, formula and "
             "constant texts, hidden / veryHidden, active tab, sometimes the last sheet removed again), and every 5th corpus file (all in the thorough tier); quick N=80, thorough "
             "N=1000; each workbook saved 5 times + second generation. Requests after the header are the tie lines of the first package (sheetlist, dnw/dnr per defined name, "
-            "range per merge / auto filter, links per sheet, comments per sheet). Codec cases: 8 witnesses (`c06 reset codecw <id>`: the four repaired defects, three residual ones, all "
+            "range per merge / auto filter, links per sheet, comments per sheet). Codec cases: 8 witnesses (`c06 reset codecw <id>`: the seven repaired defects, all "
             "eight validation types) and N2 generated workbooks (`c06 reset codec <seed>`, quick N2=150, thorough 1500): 0-8 validations with every field set or unset independently, every "
-            "constructor of both enums in turn, texts from the special-character alphabet with blanks at the ends, 0-5 ranges of all four shapes; 1-2 sheets x 0-4 blocks x 1-4 rules over a pool "
+            "constructor of both enums in turn, texts from the special-character alphabet with blanks at the ends, 0-5 ranges of all four shapes; 1-2 sheets x 0-4 blocks x 0-4 rules (a tenth of the blocks without rules, a tenth without ranges, a quarter of the scale colours without attributes) over a pool "
             "of 6 styles (incl. the hash-colliding pair), all 18/12/10/6 enum constructors, i32/u32 boundary values, scales with 0-3 cfvos / colours, formulas as text / bare area / sheet area "
             "on 9 sheet names; each saved, reloaded, saved again. Tie lines: `c06 dvs` per sheet with validations, `c06 cf` per package and per second generation. non-trivial = every tie "
-            "line; distinct = distinct request line. Comment cases: 3 witnesses (`c06 reset cmtw <id>`: no-column-target = C06_comment_no_column_target_fails, order = the "
-            "non-vacuity example of C06_comment_roundtrip, blank-holders = norm), N3 generated workbooks (`c06 reset cmt <seed>`, quick N3=150, thorough 1500): 1-2 sheets x 0-12 comments on distinct scattered cells "
+            "line; distinct = distinct request line. Comment cases: 4 witnesses (`c06 reset cmtw <id>`: no-column-target = C06_comment_no_column_target, order = the "
+            "non-vacuity example of C06_comment_roundtrip, blank-holders = valueless row / column holders, stale-target = a comment moved after new_comment next to a comment on its old cell), N3 generated workbooks (`c06 reset cmt <seed>`, quick N3=150, thorough 1500): 1-2 sheets x 0-12 comments on distinct scattered cells "
             "(columns to XFD, rows to 1048576) in random or reverse-sorted insertion order, authors from a pool of 8 incl. the empty one, text plain (specials, blanks / line breaks / U+3000 / NBSP at the ends, empty) "
             "or rich (0-4 runs, fonts on two thirds), anchors default or explicit incl. 0 and u32::MAX, visibility hidden by style / visible with an empty x:Visible / x:Visible True or False, valued "
-            "MoveWithCells / SizeWithCells; one `c06 cmt` tie line per sheet with comments; every corpus file with a comments part (`c06 reset cmtf <file>`), one `c06 cmtr` line per sheet with comments",
+            "MoveWithCells / SizeWithCells; one `c06 cmt` tie line per sheet with comments; N4 generated workbooks (`c06 reset cmtp <seed>`, quick N4=60, thorough 600) saved, the v:shape elements of every VML part reversed / rotated / shuffled, re-zipped and reloaded: oracle = every comment still "
+            "has its own shape, one `c06 cmtr` line per sheet on the permuted part; every corpus file with a comments part (`c06 reset cmtf <file>`), one `c06 cmtr` line per sheet with comments",
     "trusted_base": TB_COMMON + [
         "C06 codecs: Umya/Spec/XmlLex.lean (the independent XML reader that parses the real elements in the driver); harness/src/c06codec.rs (specs written down while calling the "
         "setters, enum spellings copied from ECMA-376, getter views, the raw-element scanner `elements`); Umya/Driver/C06Codec.lean (spec parser, attribute-order-insensitive tree "
@@ -107,9 +111,8 @@ PROP = {
         "only through a five-field signature (font name, size, bold, font rgb, fill fgColor rgb); number format / protection of a Style set on a rule are not carried by a dxf and are "
         "lost (not observed here); a colour's tint is carried as its decimal text (f64 print / parse trusted); indexed colours inside scales and the attributes of <iconSet> / <dataBar> "
         "elements themselves (iconSet=, showValue, minLength ...) are not held by the structs and not modelled; a formula text that is_address accepts but that is not in canonical "
-        "spelling (A01, 'S'!A1) is re-printed canonically (outside FmlWF, shown by an example); residual losses refuted and listed as known findings: a colour without attributes in a "
-        "scale is not written (C06_cf_blank_color_fails), a block without ranges reloads with one empty range (C06_cf_empty_sqref_fails), a block without rules is not read back "
-        "(C06_cf_no_rules_fails)",
+        "spelling (A01, 'S'!A1) is re-printed canonically (outside FmlWF, shown by an example); a ConditionalFormatting without rules is not written and does not come back (norm "
+        "writtenBlocks of C06_conditional_formatting_roundtrip: such a block holds no conditional format, and an element without cfRule would not be valid)",
         "the tree-level readers of both codecs look at direct children and ignore the Empty / Start event distinction except where stated (blocks without children): foreign "
         "spellings such as <formula/> or a <cfvo> with children under <dataBar> are read by the model but not by the code; only elements this library writes are in the theorems",
         "view / page / protection codecs (sheet views, panes, selections, page setup, margins, print options, header / footer, sheet and workbook protection, tab colour, active tab, defined-name attributes) are modelled and proved per element at the level of the tree an XML reader delivers (Umya/Thm/C06View.lean); the part walk that finds the element (Empty vs Start events, nesting) is tied by the vpp stream only",
@@ -118,13 +121,13 @@ PROP = {
         
         
         
-        "comments: text (plain = one run, rich = runs), style, anchor, x:Row / x:Column, x:Visible, x:MoveWithCells, x:SizeWithCells and the positional join are modelled and proved at the level of element trees "
+        "comments: text (plain = one run, rich = runs), style, anchor, x:Row / x:Column, x:Visible, x:MoveWithCells, x:SizeWithCells and the join of shapes to comments by cell are modelled and proved at the level of element trees "
         "(Umya/Model/AnnotComment.lean, C06_comment_roundtrip / C06_comment_no_swap), tied by the `c06 cmt` / `c06 cmtr` lines. Limits: run properties are OPAQUE (the <rPr> element is carried verbatim; that "
         "Font::set_attributes / write_to_rpr reproduce the font is the C05 font codec - here only observed by the harness oracle through a five-field font signature); the remaining attributes and children of "
         "v:shape (type, fillcolor, o:insetmode, v:fill, v:shadow, v:path, v:textbox), x:AutoFill / x:CF / x:AutoPict and OLE-object shapes are projected away before trees are compared and are covered by "
         "the general dump oracle only; the tree-level readers look at direct children and cannot tell <r/> or <x:Column/> (skipped by the code) from <r></r> / <x:Column></x:Column> (the library writes neither); "
-        "a comment built without new_comment has no x:Column and takes the next comment's shape (C06_comment_no_column_target_fails, known finding); loaded files whose note shapes are not in commentList "
-        "order are mis-paired by the positional join (outside validCommentParts; three corpus files, known finding, reader defect = C03 territory, not repaired)",
+        "C06_comment_join_by_cell assumes distinct comment cells and note shapes that name exactly the comments' cells; a loaded part with two note shapes naming one cell, or a note shape naming a cell without "
+        "a comment next to shapes that do name cells, is joined as the code does (last shape wins / position) without a theorem saying that is what the producer meant",
         "auto filter: the struct holds the range only (C06_auto_filter_codec, C06_merge_roundtrip, `c06 range` lines); filter columns / criteria / sort state of a loaded file are not held by the library and are dropped on re-save (not a round-trip matter for values set through the API; C04 / C03 territory for loaded files)",
         "re-homing of defined names (localSheetId, or the sheet named in the first area) is observed through the dump (identity = name + scope), not modelled",
         "Worksheet::set_active_cell is not saved at all (known finding)",
